@@ -26,6 +26,19 @@ def run_case(args):
             keys += ks
         else:
             keys += ':' + R.choice(EXCMDS) + '\n'
+    if R.random() < 0.12:
+        # prompt-line editing with multi-byte text: long command lines, backspace / word delete, and history completion (^A)
+        # of an earlier line that is longer than the 64-byte completion buffer
+        mb = lambda n: ''.join(R.choice(['é', '中', '😀', 'ب', 'a', ' ', 'ü', '日本']) for _ in range(n))
+        keys = ':se hist=%d\n' % R.choice([1, 5, 50])
+        for _ in range(R.randint(1, 3)):
+            pre = R.choice([':s/x/', ':s/a/', ':ec ', ':%s/o/', ':g/a/s/$/'])
+            body = mb(R.choice([10, 25, 30, 31, 32, 40, 62, 63, 64, 70, 120]))
+            edit = R.choice(['', '', '\x08' * R.randint(1, 5), '\x17', '\x08\x08é', '\x16\x1b'])
+            keys += pre + body + edit + '/\n'
+            if R.random() < 0.7:
+                keys += pre + R.choice(['', body[:1], body[:3]]) + '\x01' + R.choice(['', '\x01', '\x08']) + '\n'
+        keys += R.choice(['', '/' + mb(70) + '\x01\n', '?' + mb(20) + '\x08\x08\n'])
     data = keys.encode('utf-8') + b'\x1b:w! out\n'
     r, d = common.run_vi(vi, data, files={'f1': gen.buf_bytes(lines)}, timeout=60)
     out = common.readf(d, 'out')
